@@ -288,6 +288,10 @@ def tasks_for(tier):
         for gap in gaps:
             t.append(('link ratio %d, 3 symbolic bytes, gap %d cycles' % (ratio, gap), quick_task, {'ratio': ratio, 'nbytes': 3, 'gap': gap}))
     # the first offer at every phase of the bit period (idle cycles before the first byte), bytes back to back afterwards
+    # large divider ratios (the statement says EVERY ratio of at least 4): real baud settings such as 100 MHz / 115200 (868 clocks per
+    # bit) run for about 10**4 cycles per byte; 1 symbolic byte (quick: one ratio), 2 bytes at a few more ratios in the thorough tier
+    for ratio, nb in (((1000, 1),) if quick else ((100, 2), (434, 2), (868, 2), (1000, 1), (2604, 1), (5208, 1))):
+        t.append(('link ratio %d (large divider), %d symbolic byte(s), gap 0 cycles' % (ratio, nb), quick_task, {'ratio': ratio, 'nbytes': nb, 'gap': 0}))
     for ratio in ((4, 5, 8) if quick else (4, 5, 6, 7, 8, 12, 16)):
         for lead in range(1, 2 * ratio + 1):
             t.append(('link ratio %d, 3 symbolic bytes, gap 0 cycles, first offer after %d idle cycles' % (ratio, lead), quick_task,
@@ -307,9 +311,9 @@ def main(argv=None):
         technique='symbolic execution of the real serializer + clock recovery + deserializer under the real simulator (BMC); delivered-byte terms compared with the sent symbols by z3; independent software 8N1 receiver on the line terms',
         assumptions=['both ends run from the same system clock (one HWSystem)', 'producer holds data stable while valid; a byte counts as accepted when the serializer leaves its READY state with valid high',
                      'quick tier: receiver always ready, valid held until accepted, gaps enumerated'],
-        bounds={'ratios': '4,6,8 clocks/bit (quick); 4..16 (thorough)', 'bytes': '3 symbolic bytes per run (all 2**24 value combinations)',
+        bounds={'ratios': '4,5,6,8 clocks/bit and one large ratio (1000) (quick); 4..16 and 100, 434, 868, 1000, 2604, 5208 (thorough)', 'bytes': '3 symbolic bytes per run (all 2**24 value combinations)',
                 'gaps': '0..2 bit times in clock steps', 'symbolic handshakes': 'quick: 1 byte/60 cycles at ratio 4; thorough: 2 bytes at ratios 4 and 6',
-                'outside': 'ratios > 16, clock mismatch between two systems, more than 3 frames'},
+                'outside': 'ratios other than the listed ones, clock mismatch between two systems, more than 3 frames'},
         trusted_base=['z3', 'symx operator semantics and fork-and-merge shell', 'software receiver and monitors in checks/c17.py'], task_limit=3000)
 
 
